@@ -62,3 +62,6 @@ CFG = dict(
 )
 
 CFG["level_extra"] = ('The hypothesis NoDup (bins p) is proved from a line-by-line model of get_bins with the float trigonometry abstract (C15_get_bins_nodup, C15_get_bins_total, C15_cluster_pub_bins) and that model is tied to the implementation by c15bins cases.')
+
+# a run with fewer cases than half of what the quick tier generates today would be a (partly) vacuous differential
+CFG["min_cases"] = 5058
